@@ -56,6 +56,38 @@ def judge(ctx, mode, extra, obs, acc):
                         ev[1], ev[3], '-' if ev[4] else '+', pc, kept, ev[6]), 'selection', {}))
                 if acc is not None and len(ev[6]) > pc:
                     acc.classes['correlations-with-more-peaks-than-peaksCount'] += 1
+    # every selected seed gets ITS OWN refinement: the i-th refined correlation belongs to the i-th best seed (same reference and strand)
+    # and its best peak lies within the secondary margin of that seed
+    margin = int(dict(zip(extra[::2], extra[1::2])).get('-ma', 16000))
+    refined, seedpos = {}, {}
+    for ev in first:
+        if ev[0] == 'refined':
+            refined.setdefault(ev[1], {})[ev[5]] = ev
+        elif ev[0] == 'seeds':
+            seedpos.setdefault(ev[1], []).extend((p[1], ev[3], ev[4], p[0]) for p in ev[5])
+    for qid, byidx in refined.items():
+        sd = sorted(seedpos.get(qid, []), reverse=True)
+        top = sd[:pc]
+        if len({x[0] for x in sd[:pc + 1]}) != len(sd[:pc + 1]):
+            continue        # exact score ties: the order is not determined
+        if sorted(byidx) != list(range(len(top))):
+            found.append(('not-every-selected-seed-is-refined', 'query %s -p %d: refined correlations with indices %s for %d selected seeds' % (
+                qid, pc, sorted(byidx), len(top)), 'selection', {}))
+            continue
+        for i, (score, rid, rev, pos) in enumerate(top):
+            ev = byidx[i]
+            if (ev[3], ev[4]) != (rid, rev):
+                found.append(('refinement-belongs-to-another-seed', 'query %s seed %d is on reference %s strand %s, its refined correlation on %s %s' % (
+                    qid, i, rid, '-' if rev else '+', ev[3], '-' if ev[4] else '+'), 'selection', {}))
+                break
+            if ev[6]:
+                best = max(ev[6], key=lambda p: p[1])
+                if abs(best[0] - pos) > margin + 3000:
+                    found.append(('refinement-belongs-to-another-seed', 'query %s seed %d at %s bp on reference %s: the best peak of its refined correlation '
+                                  'is at %s bp (secondary margin %d)' % (qid, i, pos, rid, best[0], margin), 'selection', {}))
+                    break
+        if acc is not None and len({(x[1], x[2]) for x in top}) < len(top):
+            acc.classes['queries-with-two-selected-seeds-on-one-reference-and-strand'] += 1
     for qid in ctx.qmaps:
         # candidates are built "over all references and both strands": every query is correlated with every reference twice
         if first and {r: seen.get(qid, {}).get(r, 0) for r in ctx.rmaps} != {r: 2 for r in ctx.rmaps}:
@@ -173,7 +205,7 @@ def layers(tier, seed):
     from mc.props import c16
     ws += [w for w in c16.seed_layer(tier, seed).worlds if w.get('planted')][:6 if tier == 'quick' else None]
     extras = tuple(('-p', str(p)) for p in (1, 2, 3, 5))
-    return [e2e.WorldLayer('worlds', ws, judge, extras=extras, extensions=[sink.Candidates, sink.Seeds],
+    return [e2e.WorldLayer('worlds', ws, judge, extras=extras, extensions=[sink.Candidates, sink.Seeds, sink.Refined],
                            bounds=dict(worlds=len(ws), peaksCount=[1, 2, 3, 5], modes=list(e2e.MODES), queries_per_world=[3, 5], references=[1, 3]),
                            rule='%d multi-query worlds x 4 peaksCount x 4 modes' % len(ws), cli_every=0),
             Rerun(ws[:2] if tier == 'quick' else ws[:8])]
